@@ -262,6 +262,7 @@ int myth_scheduler_worker_init(int rank, int nw) {
    the fill state of every run queue and its own exit flag.
    *local_nonempty    : the worker's own queue holds a thread
    *others_nonempty   : some other worker's queue holds a thread */
+int g_myth_verif_sig_skip_own = 0; /* leave the worker's own queue out of the signature */
 unsigned long myth_verif_idle_sig(int rank, int * local_nonempty,
 				  int * others_nonempty) {
   unsigned long h = 1469598103934665603UL;
@@ -271,8 +272,10 @@ unsigned long myth_verif_idle_sig(int rank, int * local_nonempty,
   for (i = 0; i < g_attr.n_workers; i++) {
     myth_thread_queue_t q = &g_envs[i].runnable_q;
     int top = q->top, base = q->base;
-    h = (h ^ (unsigned long)(unsigned)top) * 1099511628211UL;
-    h = (h ^ (unsigned long)(unsigned)base) * 1099511628211UL;
+    if (i != rank || !g_myth_verif_sig_skip_own) {
+      h = (h ^ (unsigned long)(unsigned)top) * 1099511628211UL;
+      h = (h ^ (unsigned long)(unsigned)base) * 1099511628211UL;
+    }
     if (top - base > 0) {
       if (i == rank) *local_nonempty = 1; else *others_nonempty = 1;
     }
